@@ -243,14 +243,14 @@ def run(ck):
                      "C19.3", short(rcmp) + ":coverage-args", wr, "coverage of a side is computed from that side's pairs and its own difference",
                      found=T.show(cov)[:200])
     cov_fn = p.find_method("AlignmentRowComparer", "__getCoverage")
-    for pa in explore(ck, cov_fn):
-        if pa.outcome == "return":
-            pairs, diff = V("pairs"), V("difference")
-            n = T.mk_call("len", [pairs])
-            want = T.mk_select(pairs, ("div", T.p_sub(n, T.mk_call("len", [diff])), n), C(1))
-            ck.judge(pa.value == want, "C19.3", short(cov_fn), where(cov_fn, pa.node),
-                     "coverage = (|pairs| - |difference|) / |pairs|, and 1 for an alignment without pairs", found=T.show(pa.value),
-                     required=T.show(want))
+    from ..rules.common import merged_return
+    cov_v, cov_pa = merged_return(ck, cov_fn)
+    pairs, diff = V("pairs"), V("difference")
+    n = T.mk_call("len", [pairs])
+    want = T.mk_select(pairs, ("div", T.p_sub(n, T.mk_call("len", [diff])), n), C(1))
+    ck.judge(cov_v == want, "C19.3", short(cov_fn), where(cov_fn, cov_pa.node),
+             "coverage = (|pairs| - |difference|) / |pairs|, and 1 for an alignment without pairs", found=T.show(cov_v),
+             required=T.show(want))
     dif_fn = p.find_method("AlignmentRowComparer", "__getDifference")
     for pa in explore(ck, dif_fn):
         if pa.outcome == "return":
